@@ -112,6 +112,12 @@ def all_addressed(q, n):
     return all(wire.addressed(x, n) for x in q)
 
 
+def own_container(x):
+    """x is a container of its own: not a module- or class-level object of the code under contract (which every
+    instance would share) - natively always true for what the contracts pass"""
+    return True
+
+
 def is_str(x):
     return isinstance(x, str)
 
@@ -149,6 +155,7 @@ def install_vocabulary(it):
     it.models[id(is_prefix)] = ModelFn("is_prefix", lambda it2, a, k: ops.mk("bool", z3.PrefixOf(ops._seq_term(a[0]), ops._seq_term(a[1]))))
     it.models[id(same_item)] = ModelFn("same_item", m_same_item)
     it.models[id(all_addressed)] = ModelFn("all_addressed", m_all_addressed)
+    it.models[id(own_container)] = ModelFn("own_container", lambda it2, a, k: it2.module_state_name(ops.force(a[0])) is None)
     from .core import PYVAL
 
     def tagtest(tag, pyt):
